@@ -40,7 +40,7 @@ type c17Op struct {
 
 func TestC17(t *testing.T) {
 	r, e := start(t, "C17",
-		"random histories (<= 12 operations quick, <= 30 thorough) of write(p,s), write(p,s,false), write(p,s,true) (the flag spelled as a literal, a variable, a comparison or exists(p) where that has the wanted value), read(p) (only where the model says p exists; also two reads in one statement: printed together, compared, concatenated), write(p, read(q)[, true|false]) with the data taken directly from a read of another existing file or of p itself and exists(p) over 2-4 paths drawn from {plain, sub-directory, blank, double blank, leading dash, the names -, -n and --, ;, *, $, ', leading blank, &} and contents from {neutral, empty, edge blanks, blank runs, quotes, $, $(cmd), backquote, backslash, glob, -n, tab, shell metacharacters, #, embedded newline, !, %}; the whole history is one generated program (a third of the operations wrapped in a construct that runs them once: taken branch, else branch, one-pass loop, switch case, branch inside a loop), values literal or held in variables read from stdin, written plainly or as a call result, a parenthesised expression, a concatenation or a slice element, half the time executed inside a function with paths/contents as parameters; a third of the operations are performed by small helper functions (hwrite, hread, ...) called from the history instead of directly; a sixth of the steps are triples 'observe p (read/exists), a helper FUNCTION writes p, observe p again' in one straight-line block. Oracle: model map[path][]line: file bytes = lines joined by newline + newline, read = lines joined, exists = key present; the sandbox afterwards holds exactly the model's files. Non-trivial = append after overwrite after append on one path, or >= 2 paths with a non-plain path or content; distinct by history.",
+		"random histories (<= 12 operations quick, <= 30 thorough) of write(p,s), write(p,s,false), write(p,s,true) (the flag spelled as a literal, a variable, a comparison or exists(p) where that has the wanted value), read(p) (only where the model says p exists; also two reads in one statement: printed together, compared, concatenated), write(p, read(q)[, true|false]) with the data taken directly from a read of another existing file or of p itself and exists(p) (its result printed, stored in a slice literal, compared, combined, passed to a function; and 'exists(p), a function appending to p, exists(p)' as operands of one statement) over 2-4 paths drawn from {plain, sub-directory, blank, double blank, leading dash, the names -, -n and --, ;, *, $, ', leading blank, &} and contents from {neutral, empty, edge blanks, blank runs, quotes, $, $(cmd), backquote, backslash, glob, -n, tab, shell metacharacters, #, embedded newline, !, %}; the whole history is one generated program (a third of the operations wrapped in a construct that runs them once: taken branch, else branch, one-pass loop, switch case, branch inside a loop), values literal or held in variables read from stdin, written plainly or as a call result, a parenthesised expression, a concatenation or a slice element, half the time executed inside a function with paths/contents as parameters; a third of the operations are performed by small helper functions (hwrite, hread, ...) called from the history instead of directly; a sixth of the steps are triples 'observe p (read/exists), a helper FUNCTION writes p, observe p again' in one straight-line block. Oracle: model map[path][]line: file bytes = lines joined by newline + newline, read = lines joined, exists = key present; the sandbox afterwards holds exactly the model's files. Non-trivial = append after overwrite after append on one path, or >= 2 paths with a non-plain path or content; distinct by history.",
 		[]string{"reading a missing file is outside the statement (never generated)", "contents ending in a newline are not generated (read strips trailing newlines by definition)", "values containing $, backquote, double quote or backslash are supplied at run time through input(): as source literals they fall under the listed C08 finding"})
 	defer r.Flush()
 	maxOps := e.Pick(12, 30)
@@ -92,7 +92,8 @@ func TestC17(t *testing.T) {
 				history = append(history, "observe-call-observe:"+obs+":"+chg+":"+obs2+":"+c17Paths[p].class)
 				continue
 			}
-			kinds := []string{"write", "write", "append", "append", "overwrite-false", "exists"}
+			// "exists-append-exists": exists(p), a FUNCTION that appends to p, exists(p) - all operands of one statement
+			kinds := []string{"write", "write", "append", "append", "overwrite-false", "exists", "exists-append-exists"}
 			if _, ok := model[c17Paths[p].p]; ok {
 				kinds = append(kinds, "read", "read")
 				// two reads alive in one statement (the second path: any other existing file, else the same one)
@@ -142,7 +143,7 @@ func TestC17(t *testing.T) {
 				}
 			case "write", "overwrite-false":
 				model[path] = []string{c17Contents[op.content].s}
-			case "append":
+			case "append", "exists-append-exists":
 				model[path] = append(model[path], c17Contents[op.content].s)
 			}
 			history = append(history, k+":"+c17Paths[p].class+":"+c17Contents[op.content].class)
@@ -333,8 +334,36 @@ func TestC17(t *testing.T) {
 					body.WriteString("print(\"<\" + (" + rd(pe) + " + " + rd(pe2) + ") + \">\")\n")
 					expOut += "<" + a + b + ">\n"
 				}
+			case "exists-append-exists":
+				ce := dress(&body, valueRef("c", op.content, c17Contents[op.content].s))
+				usesHelpers = true
+				r.Class("exists-append-exists")
+				before := "0"
+				if _, ok := cur[path]; ok {
+					before = "1"
+				}
+				body.WriteString("print(\"eae\", exists(" + pe + "), happendb(" + pe + ", " + ce + "), exists(" + pe + "))\n")
+				expOut += "eae " + before + " 1 1\n"
+				cur[path] = append(cur[path], c17Contents[op.content].s)
 			case "exists":
-				if via {
+				// the result of exists() used directly in other positions than a printed value
+				switch form := gen.Uniform(0, 5).Draw(t, "exists-form"); {
+				case via:
+				case form == 1:
+					body.WriteString(fmt.Sprintf("eb%d := []bool{exists(%s), false}\n", opIdx, pe))
+					pe = fmt.Sprintf("\x00eb%d[0]", opIdx)
+				case form == 2:
+					pe = "\x00exists(" + pe + ") == true"
+				case form == 3:
+					pe = "\x00exists(" + pe + ") && true"
+				case form == 4:
+					usesHelpers = true
+					pe = "\x00hidb(exists(" + pe + "))"
+				}
+				if strings.HasPrefix(pe, "\x00") {
+					r.Class("exists-result-used-directly")
+					body.WriteString("print(\"exists\", " + pe[1:] + ")\n")
+				} else if via {
 					body.WriteString("print(\"exists\", hexists(" + pe + "))\n")
 				} else {
 					body.WriteString("print(\"exists\", exists(" + pe + "))\n")
@@ -355,7 +384,7 @@ func TestC17(t *testing.T) {
 			src.WriteString("func idf(v string) string {\n\treturn v\n}\n")
 		}
 		if usesHelpers {
-			src.WriteString("func hwrite(p string, c string) {\n\twrite(p, c)\n}\nfunc hwritef(p string, c string, a bool) {\n\twrite(p, c, a)\n}\nfunc hread(p string) string {\n\treturn read(p)\n}\nfunc hexists(p string) bool {\n\treturn exists(p)\n}\n")
+			src.WriteString("func hwrite(p string, c string) {\n\twrite(p, c)\n}\nfunc hwritef(p string, c string, a bool) {\n\twrite(p, c, a)\n}\nfunc hread(p string) string {\n\treturn read(p)\n}\nfunc hexists(p string) bool {\n\treturn exists(p)\n}\nfunc happendb(p string, c string) bool {\n\twrite(p, c, true)\n\treturn true\n}\nfunc hidb(b bool) bool {\n\treturn b\n}\n")
 		}
 		src.WriteString(decl.String())
 		if inFunc {
